@@ -110,6 +110,12 @@ func (e *Engine) isPurePkg(fn *types.Func) bool {
 	if strings.Contains(p, "/proto/") { // generated protobuf getters
 		return true
 	}
+	// getters of the gossip envelope and the libp2p host: values of the message / host, no effect
+	switch fn.FullName() {
+	case "(*github.com/libp2p/go-libp2p-pubsub.Message).GetFrom", "(github.com/libp2p/go-libp2p/core/host.Host).ID",
+		"(github.com/libp2p/go-libp2p/core/peer.ID).String":
+		return true
+	}
 	return false
 }
 
